@@ -41,6 +41,45 @@ Theorem C16_find_backward : forall ceq (d : doc) (sub : str) (ic : bool),
 Proof. exact doc_find_backwards_spec. Qed.
 Print Assumptions C16_find_backward.
 
+(* Document.find with a count >= 1: the count-th match of the leftmost
+   NON-OVERLAPPING scan that starts at (icp) / just after the cursor -
+   [nth_match]: after a match at p0 the scan resumes at p0 + max 1 |needle| -
+   and None exactly when the scan has fewer matches.  (For 'aaa' and 'aa' the
+   second occurrence overlaps the first and is not counted: re.finditer.) *)
+Theorem C16_find_forward_nth : forall ceq (d : doc) (sub : str) (icp ic : bool) (count : Z),
+  0 <= dcur d <= len (dtext d) -> 1 <= count ->
+  let lo := Z.to_nat (if icp then dcur d else dcur d + 1) in
+  match doc_find ceq d sub icp ic count with
+  | Some r => (if icp then 0 else 1) <= r /\
+              nth_match ceq ic sub (dtext d) lo (Z.to_nat (count - 1)) (Z.to_nat (dcur d + r))
+  | None => forall p, ~ nth_match ceq ic sub (dtext d) lo (Z.to_nat (count - 1)) p
+  end.
+Proof. exact doc_find_nth. Qed.
+Print Assumptions C16_find_forward_nth.
+
+(* Document.find_backwards with a count >= 1: the count-th match of the same
+   scan run over the MIRRORED text before the cursor for the mirrored needle
+   (that is the code), None exactly when that scan has fewer matches; what is
+   returned is a real occurrence lying wholly before the cursor.  (The scan
+   order in mirrored coordinates is "nearest first"; stating it in forward
+   coordinates for count > 1 is left open.) *)
+Theorem C16_find_backward_nth : forall ceq (d : doc) (sub : str) (ic : bool) (count : Z),
+  0 <= dcur d <= len (dtext d) -> 1 <= count ->
+  let B := firstn (Z.to_nat (dcur d)) (dtext d) in
+  match doc_find_backwards ceq d sub ic count with
+  | Some r => 0 <= dcur d + r /\ dcur d + r + len sub <= dcur d /\
+              nth_match ceq ic (rev sub) (rev B) 0 (Z.to_nat (count - 1)) (Z.to_nat (- r - len sub)) /\
+              occurs ceq ic sub (dtext d) (dcur d + r)
+  | None => forall p, ~ nth_match ceq ic (rev sub) (rev B) 0 (Z.to_nat (count - 1)) p
+  end.
+Proof. exact doc_find_backwards_nth. Qed.
+Print Assumptions C16_find_backward_nth.
+
+Theorem C16_find_count_below_1 : forall ceq (d : doc) (sub : str) (icp ic : bool) (count : Z),
+  count < 1 -> doc_find ceq d sub icp ic count = None /\ doc_find_backwards ceq d sub ic count = None.
+Proof. exact doc_find_count_below_1. Qed.
+Print Assumptions C16_find_count_below_1.
+
 (* Whatever the direction, include_current_position and count: a position
    returned by Buffer._search is inside the working lines and the needle
    really occurs there (under ceq iff ignore_case). *)
@@ -199,10 +238,11 @@ Theorem C16_preview_is_accept_empty_field_refuted :
 Proof. exact accept_empty_field_refuted. Qed.
 Print Assumptions C16_preview_is_accept_empty_field_refuted.
 
-(* Typing in the search field (characters, Backspace that does not abort)
-   changes neither text nor cursor nor working index of the main buffer, nor
-   the stored search state; so does every sequence of such keys (emacs mode;
-   in Vi mode Backspace on an empty field is "abort"). *)
+(* Typing in the search field - the field is a buffer of its own: characters
+   inserted at its cursor, Backspace (that does not abort), Delete, Left,
+   Right, Home, End - changes neither text nor cursor nor working index of the
+   main buffer, nor the stored search state; so does every sequence of such
+   keys (emacs mode; in Vi mode Backspace on an empty field is "abort"). *)
 Theorem C16_typing_pure : forall ceq s k s',
   searching s = true -> typing_key k ->
   (vi s = false \/ k <> KBackspace \/ field s <> []) ->
@@ -214,7 +254,7 @@ Print Assumptions C16_typing_pure.
 Theorem C16_typing_pure_seq : forall ceq ks s s',
   searching s = true -> vi s = false -> Forall typing_key ks ->
   keys_run ceq s ks = Some s' ->
-  main s' = main s /\ searching s' = true /\ ss_text s' = ss_text s /\ ss_dir s' = ss_dir s.
+  main s' = main s /\ searching s' = true /\ ss_text s' = ss_text s /\ ss_dir s' = ss_dir s /\ vi s' = false.
 Proof. exact typing_pure_seq. Qed.
 Print Assumptions C16_typing_pure_seq.
 
@@ -223,9 +263,62 @@ Theorem C16_start_pure : forall ceq s k s',
   searching s = false -> (k = KCr \/ k = KCs \/ k = KSlash \/ k = KQuestion) ->
   (vi s = true -> k = KSlash \/ k = KQuestion) ->
   (vi s = false -> k = KCr \/ k = KCs) ->
-  key_step ceq s k = Some s' -> main s' = main s /\ searching s' = true.
+  key_step ceq s k = Some s' -> main s' = main s /\ searching s' = true /\ vi s' = vi s.
 Proof. exact start_pure. Qed.
 Print Assumptions C16_start_pure.
+
+(* Abort (C-g): the key itself changes nothing of the main buffer (a Vi
+   session returning to navigation mode re-applies its end-of-line rule). *)
+Theorem C16_abort_pure : forall ceq s s',
+  searching s = true -> key_step ceq s KCg = Some s' ->
+  searching s' = false /\ main s' = (if vi s then fix_vi (main s) else main s).
+Proof. exact abort_pure. Qed.
+Print Assumptions C16_abort_pure.
+
+(* A whole session that starts a search, only edits the search field and
+   aborts leaves text, cursor and working index of the main buffer exactly as
+   they were before the session started. *)
+Theorem C16_start_typing_abort : forall ceq s k0 ks s1 s2 s3,
+  searching s = false -> vi s = false -> (k0 = KCr \/ k0 = KCs) ->
+  key_step ceq s k0 = Some s1 -> Forall typing_key ks -> keys_run ceq s1 ks = Some s2 ->
+  key_step ceq s2 KCg = Some s3 ->
+  main s3 = main s /\ searching s3 = false.
+Proof. exact start_typing_abort. Qed.
+Print Assumptions C16_start_typing_abort.
+
+(* ... but abort does not undo the moves that C-r / C-s pressed again during
+   the session made (the docstring of abort_search promises "restore the
+   original line"; the property text does not): recorded as an observation. *)
+Theorem C16_abort_restores_start_refuted :
+  exists s ks s', Inv (main s) /\ searching s = false /\
+    keys_run ceq_tab s (ks ++ [KCg]) = Some s' /\ searching s' = false /\ main s' <> main s.
+Proof. exact abort_does_not_restore. Qed.
+Print Assumptions C16_abort_restores_start_refuted.
+
+(* Vi '*' / '#': the key is apply_search(include_current_position=False, count)
+   for the word under the cursor, FORWARD / BACKWARD (then Vi's end-of-line
+   rule); the word and direction are stored for n/N.  Hence C16_real,
+   C16_no_skip_fwd/bwd, C16_complete_*, C16_count apply with
+   st := mkss word dir (ign s); C16_star_lands spells out the first. *)
+Theorem C16_star_is_search : forall ceq s k c w s',
+  vi s = true -> searching s = false -> (k = KStar c w \/ k = KHash c w) ->
+  key_step ceq s k = Some s' ->
+  let dir := match k with KStar _ _ => 0 | _ => 1 end in
+  main s' = fix_vi (apply_search ceq (main s) (mkss w dir (ign s)) false c) /\
+  ss_text s' = w /\ ss_dir s' = dir /\ searching s' = false.
+Proof. exact star_is_search. Qed.
+Print Assumptions C16_star_is_search.
+
+Theorem C16_star_lands : forall ceq s c w,
+  Inv (main s) ->
+  forall dir, match search ceq (main s) (mkss w dir (ign s)) false c with
+  | SFound w' c' =>
+      apply_search ceq (main s) (mkss w dir (ign s)) false c = moved (main s) w' c' /\
+      occurs ceq (ign s) w (entry (wl (main s)) w') c'
+  | SNone => apply_search ceq (main s) (mkss w dir (ign s)) false c = main s
+  end.
+Proof. exact star_lands. Qed.
+Print Assumptions C16_star_lands.
 
 (* Non-vacuity: a concrete buffer meets Inv; a forward search finds nothing
    ahead and wraps around to the start of its own line (line 0); from cursor 0
